@@ -262,6 +262,20 @@ def gen_tracestate(repo):
     return '\n'.join(out)
 
 
+def _load_plugins():
+    """tools/gen_*.py: per-property generator modules (`import extract as X; @X.gen('Name') def …`)"""
+    import glob, importlib
+    if __name__ == '__main__':
+        sys.modules.setdefault('extract', sys.modules['__main__'])
+    if HERE not in sys.path:
+        sys.path.insert(0, HERE)
+    for f in sorted(glob.glob(os.path.join(HERE, 'gen_*.py'))):
+        importlib.import_module(os.path.basename(f)[:-3])
+
+
+_load_plugins()
+
+
 def extract_all(repo, only=None):
     """returns (changed_files, errors)"""
     os.makedirs(GEN_DIR, exist_ok=True)
